@@ -1,0 +1,163 @@
+//go:build verif
+
+// Add-only verification hooks for property C08 (an invocation compiles to the
+// same well-formed task graph everywhere). Thin wrappers only: they expose the
+// unexported compile entry points and the driver->worker transport of an
+// invocation to the harness in /verif/harness/c08. Nothing here is compiled
+// without the build tag `verif`.
+
+package exec
+
+import (
+	"bytes"
+	"context"
+	"io"
+	"reflect"
+
+	"github.com/grailbio/bigslice"
+	"github.com/grailbio/bigslice/internal/slicecache"
+	"github.com/grailbio/bigslice/stats"
+)
+
+// VerifC08Compiled is what (*Session).run holds after compiling an invocation.
+type VerifC08Compiled struct {
+	inv   execInvocation
+	Slice bigslice.Slice
+	Tasks []*Task
+}
+
+// VerifC08SessionCompile performs the compile prologue of (*Session).run
+// (session.go: makeExecInvocation, Invoke, compile, Env.Freeze), without
+// evaluating the tasks.
+func VerifC08SessionCompile(fv *bigslice.FuncValue, machineCombiners bool, args ...interface{}) (c *VerifC08Compiled, err error) {
+	inv := makeExecInvocation(fv.Invocation("<verif>", args...))
+	slice := inv.Invoke()
+	tasks, err := compile(inv, slice, machineCombiners)
+	if err != nil {
+		return nil, err
+	}
+	inv.Env.Freeze()
+	return &VerifC08Compiled{inv, slice, tasks}, nil
+}
+
+// InvIndex is the index of the compiled invocation.
+func (c *VerifC08Compiled) InvIndex() uint64 { return c.inv.Index }
+
+// Recompile invokes the Func again and compiles with the session's (frozen)
+// invocation, as a repeated in-process compilation does.
+func (c *VerifC08Compiled) Recompile(machineCombiners bool) (bigslice.Slice, []*Task, error) {
+	slice := c.inv.Invoke()
+	tasks, err := compile(c.inv, slice, machineCombiners)
+	return slice, tasks, err
+}
+
+// Result is the value (*Session).run returns for the compiled invocation
+// (without a session: it can be passed to Funcs but not scanned).
+func (c *VerifC08Compiled) Result() *Result {
+	return &Result{Slice: c.Slice, invIndex: c.inv.Index, tasks: c.Tasks}
+}
+
+// VerifC08ResultTasks returns the tasks of a *Result (seen through Unwrap, as
+// compile does).
+func VerifC08ResultTasks(s bigslice.Slice) ([]*Task, uint64, bool) {
+	r, ok := bigslice.Unwrap(s).(*Result)
+	if !ok {
+		return nil, 0, false
+	}
+	return r.tasks, r.invIndex, true
+}
+
+// VerifC08CacheView returns, for a cacheable slice, which shards its cache
+// reports as cached in this process right now.
+func VerifC08CacheView(s bigslice.Slice) ([]bool, bool) {
+	c, ok := bigslice.Unwrap(s).(slicecache.Cacheable)
+	if !ok {
+		return nil, false
+	}
+	view := make([]bool, s.NumShard())
+	for i := range view {
+		view[i] = c.Cache().IsCached(i)
+	}
+	return view, true
+}
+
+// VerifC08EnvWritable reports whether the compile environment carried by the
+// task's invocation (the one the bigmachine executor transports) is writable.
+func VerifC08EnvWritable(t *Task) bool { return t.Invocation.Env.IsWritable() }
+
+// VerifC08PartitionerKind classifies t.Partitioner: 0 nil, 1 the default
+// (hash) partitioner, 2 any other function.
+func VerifC08PartitionerKind(t *Task) int {
+	if t.Partitioner == nil {
+		return 0
+	}
+	if reflect.ValueOf(t.Partitioner).Pointer() == reflect.ValueOf(defaultPartitioner).Pointer() {
+		return 1
+	}
+	return 2
+}
+
+// VerifC08TaskInvIndex is t.Invocation.Index.
+func VerifC08TaskInvIndex(t *Task) uint64 { return t.Invocation.Index }
+
+// VerifC08Driver is the invocation bookkeeping of a bigmachineExecutor.
+type VerifC08Driver struct{ b *bigmachineExecutor }
+
+// VerifC08NewDriver returns an executor whose invocation graph is set up as
+// (*bigmachineExecutor).Start does; no machines are started.
+func VerifC08NewDriver() *VerifC08Driver {
+	b := newBigmachineExecutor(nil)
+	b.invocations = make(map[uint64]execInvocation)
+	b.invocationDeps = make(map[uint64]map[uint64]bool)
+	b.encodedInvocations = newInvDiskCache()
+	return &VerifC08Driver{b}
+}
+
+// Close releases the encoded-invocation cache.
+func (d *VerifC08Driver) Close() { d.b.encodedInvocations.close() }
+
+// Transport does what (*bigmachineExecutor).Run and compile do to ship the
+// task's invocation: addInvocation(task.Invocation), then the bytes of
+// invocationReader.
+func (d *VerifC08Driver) Transport(task *Task) ([]byte, error) {
+	if _, err := d.b.addInvocation(task.Invocation); err != nil {
+		return nil, err
+	}
+	rc, err := d.b.invocationReader(task.Invocation.Index)
+	if err != nil {
+		return nil, err
+	}
+	defer rc.Close()
+	return io.ReadAll(rc)
+}
+
+// VerifC08Worker is a worker service with only its compile state set up.
+type VerifC08Worker struct{ w *worker }
+
+// VerifC08NewWorker returns a worker as (*worker).Init leaves its compile
+// state.
+func VerifC08NewWorker(machineCombiners bool) *VerifC08Worker {
+	w := &worker{MachineCombiners: machineCombiners}
+	w.tasks = make(map[uint64]map[TaskName]*Task)
+	w.taskStats = make(map[uint64]map[TaskName]*stats.Map)
+	w.slices = make(map[uint64]bigslice.Slice)
+	return &VerifC08Worker{w}
+}
+
+// Compile is (*worker).Compile on a transported invocation.
+func (v *VerifC08Worker) Compile(p []byte) error {
+	return v.w.Compile(context.Background(), bytes.NewReader(p), nil)
+}
+
+// Roots returns the root tasks and the slice the worker stored for inv, and
+// the number of distinct task names it can look tasks up by.
+func (v *VerifC08Worker) Roots(inv uint64) (bigslice.Slice, []*Task, int, bool) {
+	v.w.mu.Lock()
+	defer v.w.mu.Unlock()
+	s, ok := v.w.slices[inv]
+	if !ok {
+		return nil, nil, 0, false
+	}
+	r := s.(*Result)
+	return r.Slice, r.tasks, len(v.w.tasks[inv]), true
+}
